@@ -59,3 +59,50 @@ Theorem C03_single_archive arcs t now : arcs <> [] -> Forall wf_arc arcs -> 0 <=
   (forall j a, 0 <= j < id -> nth_error arcs (Z.to_nat j) = Some a -> period a < now - t).
 Proof. exact (single_update_archive arcs t now). Qed.
 Print Assumptions C03_single_archive.
+
+(** ** points of a batch that fall into the same slot
+    The batch is sorted by time with a STABLE sort and written in that order; the last written
+    point of a slot wins.  Precisely (reading of the property's last sentence that the code, its
+    anchor "stable sort by time ... same-slot resolution (last wins)" and the reference
+    implementation share): among points with equal timestamps the one supplied last wins
+    ([C03_equal_times_keep_supplied_order] + [C03_same_slot_last_of_sorted_batch_wins]); among
+    points with different timestamps in one slot the one with the later timestamp wins, however
+    the batch was ordered; nothing else about the order of the batch matters
+    ([C03_order_matters_only_among_equal_timestamps]). *)
+From WT Require Import Proofs.FrameProofs Proofs.SameSlotProofs.
+
+Theorem C03_equal_times_keep_supplied_order t l :
+  filter (at_time t) (sort_points l) = filter (at_time t) l.
+Proof. exact (sort_points_stable t l). Qed.
+Print Assumptions C03_equal_times_keep_supplied_order.
+
+Theorem C03_order_matters_only_among_equal_timestamps F m xff arcs l1 l2 id now :
+  (forall t, filter (at_time t) l1 = filter (at_time t) l2) ->
+  update_points_for_archive F m xff arcs l1 id now = update_points_for_archive F m xff arcs l2 id now.
+Proof. exact (update_order_irrelevant F m xff arcs l1 l2 id now). Qed.
+Print Assumptions C03_order_matters_only_among_equal_timestamps.
+
+(** [find_time (rev l) e]: the value of the last point of [l] whose (aligned) time is [e] *)
+Theorem C03_same_slot_last_of_sorted_batch_wins F m xff L logs a pts logs' f n e :
+  spec_archive_update F m xff L logs a pts = Some logs' -> 0 <= a < zlen logs ->
+  0 < lay_step L a -> 0 < n <= lay_n L a ->
+  Forall (fun p => 0 <= p_time p < 2^32 /\ in_window f (lay_step L a) n (interval_w (lay_step L a) (p_time p))) pts ->
+  in_window f (lay_step L a) n e ->
+  live_opt (get_log logs' a) (lay_period L a) e =
+  match find_time (rev (map (align1 (lay_step L a)) pts)) e with
+  | Some v => Some v
+  | None => live_opt (get_log logs a) (lay_period L a) e
+  end.
+Proof. exact (same_slot_last_wins F m xff L logs a pts logs' f n e). Qed.
+Print Assumptions C03_same_slot_last_of_sorted_batch_wins.
+
+(** a batch that supplies two points for one slot, in both orders: with equal timestamps the last
+    supplied wins; with different timestamps the later timestamp wins in both orders *)
+Example C03_same_slot_example :
+  let batch1 := [mkPoint 1700000005 1; mkPoint 1700000005 2] in      (* equal times: 2 supplied last *)
+  let batch2 := [mkPoint 1700000007 1; mkPoint 1700000003 2] in      (* later time first: 1 wins *)
+  let batch3 := [mkPoint 1700000003 2; mkPoint 1700000007 1] in
+  find_time (rev (map (align1 10) (sort_points batch1))) 1700000000 = Some 2 /\
+  find_time (rev (map (align1 10) (sort_points batch2))) 1700000000 = Some 1 /\
+  find_time (rev (map (align1 10) (sort_points batch3))) 1700000000 = Some 1.
+Proof. vm_compute. auto. Qed.
